@@ -1,6 +1,7 @@
 import Vanguard.Lemmas.Source
 import Vanguard.Lemmas.Chunking
 import Vanguard.Lemmas.ReadSizes
+import Vanguard.Lemmas.ReframeStream
 import Vanguard.Lemmas.WriteSplit
 import Vanguard.Model.World
 /-!
@@ -140,5 +141,24 @@ def dSt : St := { op := dOp, src := { chunks := [[0, 0, 0, 0, 2, 7], [8]], endin
 example : ({} : TR).WF ∧ ({} : TR).err = none := ⟨⟨by decide, fun h => by simp at h⟩, rfl⟩
 example : (trRead fakeWorld (dOp.plan fakeWorld) 30 dSt {} 100).1 = [0, 0, 0, 0, 4, 48, 55, 48, 56] := by decide +kernel
 example : (trRead fakeWorld (dOp.plan fakeWorld) 30 dSt {} 1).1 = [0] := by decide +kernel
+
+/-- **On the re-framing path, too, neither the read-buffer sizes nor the segmentation of the body
+    matter**: two handlers reading two bodies with the same bytes and the same ending - cut into pieces in
+    any two ways - with any two sequences of buffer sizes are given the same bytes and see the same final
+    error (client and backend both with envelopes; the payload is streamed through, so single `Read`
+    results do differ - their concatenation does not). -/
+theorem reframing_read_sizes_and_chunking_do_not_matter (w : World) (ce se : Enveloper) (st1 st2 : St) (r : ER)
+    (ns1 ns2 : List Nat) (o1 o2 : Bytes) (e1 e2 : Err)
+    (hop : st2.op = st1.op) (hdata : st2.src.data = st1.src.data) (hend : st2.src.ending = st1.src.ending)
+    (hce : st1.op.clientEnveloper = some ce) (hse : st1.op.serverEnveloper = some se) (hwf : r.WF) (herr : r.err = none)
+    (h1 : EReads w st1 r ns1 o1 e1) (h2 : EReads w st2 r ns2 o2 e2) : o1 = o2 ∧ e1 = e2 :=
+  reframed_reads_agree w ce se st1 st2 r ns1 ns2 o1 o2 e1 e2 hop hdata hend hce hse hwf herr h1 h2
+
+/-- Every single `Read(n)`, `n ≥ 1`, of the re-framing reader hands out a prefix of the specified stream
+    (`erSpec`: a function of the client's bytes and the reader state) and leaves the rest. -/
+theorem every_reframing_read_is_a_stream_step (w : World) (ce se : Enveloper) (st : St) (r : ER) (n : Nat) (hn : 1 ≤ n)
+    (hce : st.op.clientEnveloper = some ce) (hse : st.op.serverEnveloper = some se) (hwf : r.WF) (herr : r.err = none) :
+    EStepOk ce se st (erSpec ce se st r) (erRead w st r n) :=
+  erRead_step w ce se st r n hn hce hse hwf herr
 
 end Vanguard.C08
